@@ -507,6 +507,62 @@ pub fn check(tier: &str) -> i32 {
     };
     rep.run_part(&m0, Duration::from_secs(60));
 
+    // M4: name shapes in every role: literal dots and backslashes at the start, in the middle and at
+    // the END of a label, also of the LAST label (so that the escaped dot meets the root dot)
+    let mut shapes = name_menu();
+    for s in [
+        "corp\\..",
+        "printer.Bldg 2\\..",
+        "a.b\\..local.",
+        "x\\\\.",
+        "x\\\\\\..",
+        "\\.a.local.",
+        "\\..local.",
+        "a\\.\\.b.local.",
+    ] {
+        shapes.push(s.to_string());
+    }
+    let ns = shapes.len() as u64;
+    let role = move |name: &str, r: u64| -> Entry {
+        match r {
+            0 => Entry::Q(name.to_string(), 255),
+            1 => Entry::An(wire::Rec::new(name, 1, 4500, wire::RData::Ptr("t.local.".into()))),
+            2 => Entry::An(wire::Rec::new("o.local.", 1, 4500, wire::RData::Ptr(name.to_string()))),
+            _ => Entry::Ar(wire::Rec::new(
+                "o.local.",
+                0x8001,
+                120,
+                wire::RData::Srv { priority: 0, weight: 0, port: 80, host: name.to_string() },
+            )),
+        }
+    };
+    // x = [shape a, role a, second entry? (0 = none, 1 + shape b * 4 + role b), query/response]
+    let sdims = [ns, 4, 1 + ns * 4, 2];
+    let shapes2 = shapes.clone();
+    let mk4 = move |x: &[u64]| -> (u16, Vec<Entry>) {
+        let mut es = vec![role(&shapes2[x[0] as usize], x[1])];
+        if x[2] > 0 {
+            let y = x[2] - 1;
+            es.push(role(&shapes2[(y / 4) as usize], y % 4));
+        }
+        (if x[3] == 0 { 0 } else { 0x8400 }, es)
+    };
+    let mk4b = mk4.clone();
+    let m4 = FnPart {
+        name: "M4-name-shapes-in-every-role".into(),
+        rule: format!("{ns} names (the menu's plus literal dots / backslashes at the start, middle and end of a label, including the last label before the root dot) x role {{question, PTR owner, PTR target, SRV target}}, alone and followed by every second (name, role), as query and as response; all must read back exactly"),
+        n: product(&sdims),
+        describe: Box::new(move |i| format!("{:?}", mk4b(&unrank(i, &sdims)))),
+        run: Box::new(move |i, _| {
+            let mut r = CaseResult { nontrivial: true, ..Default::default() };
+            let (flags, es) = mk4(&unrank(i, &sdims));
+            let refs: Vec<&Entry> = es.iter().collect();
+            check_message(flags, &refs, true, &mut r);
+            r
+        }),
+    };
+    rep.run_part(&m4, Duration::from_secs(60));
+
     // M2: overflow window
     let tails: Vec<Entry> = menu
         .iter()
